@@ -323,6 +323,10 @@ func Encrypt(pub *PublicKey, data []byte, random io.Reader, mode int) ([]byte, e
 }
 
 func Decrypt(priv *PrivateKey, data []byte, mode int) ([]byte, error) {
+	// 0x04 || x1 || y1 || C3: anything shorter cannot hold C1 and C3
+	if len(data) < 1+64+32 {
+		return nil, errors.New("Decrypt: ciphertext too short")
+	}
 	switch mode {
 	case C1C3C2:
 		data = data[1:]
@@ -346,6 +350,9 @@ func Decrypt(priv *PrivateKey, data []byte, mode int) ([]byte, error) {
 	curve := priv.Curve
 	x := new(big.Int).SetBytes(data[:32])
 	y := new(big.Int).SetBytes(data[32:64])
+	if !curve.IsOnCurve(x, y) {
+		return nil, errors.New("Decrypt: C1 is not a point on the curve")
+	}
 	x2, y2 := curve.ScalarMult(x, y, priv.D.Bytes())
 	x2Buf := x2.Bytes()
 	y2Buf := y2.Bytes()
